@@ -119,6 +119,20 @@ Theorem C18_run_alive : forall ls s, lrun init ls = Some s -> rn s = RNDead -> s
 Proof. exact C18_run_alive_l. Qed.
 Print Assumptions C18_run_alive.
 
+(* first use AFTER a Cancel: once Cancel(k) has been processed, every envelope with key k that the run loop reads -
+   the very next one included, with no envelope of another key in between - is routed to an instance created after
+   the Cancel (index >= the number of instances at the Cancel), which exists in the state (hence was announced, once,
+   in creation order: C18_announce_once) and carries the key; with C18_route_live nothing routed to it is abandoned
+   unless IT is cancelled too. The cancelled instance never receives anything again. *)
+Theorem C18_after_cancel_fresh : forall ls s, lrun init ls = Some s ->
+  forall k ls' s', lrun (ext s (ACancelKey k)) ls' = Some s' ->
+  exists evs : list dev, log s' = (log s ++ evs)%list /\
+    forall c e, In (EvShRead c e) evs -> ekey e = k ->
+      (length (conns s) <= c)%nat /\ exists x, nth_error (conns s') c = Some x /\ c_key x = k.
+Proof. exact C18_after_cancel_fresh_l. Qed.
+Print Assumptions C18_after_cancel_fresh.
+(* (C18_ex_run below is an instance: Cancel(7) with one instance, the next envelope of key 7 opens instance 1) *)
+
 (* ---------- the hypotheses are satisfiable ---------- *)
 Definition e1 := mkEnv 7 100.
 Definition e2 := mkEnv 7 101.
